@@ -443,12 +443,23 @@ def run(chk):
         chk.violation("glyphs that share a shape must land in one document, and the union-find that groups them answers "
                       "wrongly: " + b, {"kind": "disjoint-set", "what": b})
     chk.exhaustive = True
-    replay_model(chk, res.records, 100 if quick else 3000)
-    random_formats(chk, 50 if quick else 1500)
-    transform_fill_grid(chk)
-    reuse_fill_grid(chk)
-    replay_gradient_model(chk)
-    shared_gradient_documents(chk, 16 if quick else 400)
+    # every grouping the real builds below perform is recorded (harness-side subclass) and validated against
+    # DisjointSet.tla afterwards (B2)
+    from . import ds_trace
+
+    with ds_trace.Recorder() as rec:
+        replay_model(chk, res.records, 100 if quick else 3000)
+        random_formats(chk, 50 if quick else 1500)
+        transform_fill_grid(chk)
+        reuse_fill_grid(chk)
+        replay_gradient_model(chk)
+        shared_gradient_documents(chk, 16 if quick else 400)
+    problems, unions = ds_trace.validate(chk, rec.traces)
+    if unions == 0:
+        raise MachineryError("no recorded grouping contains a union (vacuous)")
+    for tr, what in problems[:3]:
+        chk.violation("the grouping of glyphs into OT-SVG documents is not a behaviour of DisjointSet.tla: " + what,
+                      {"kind": "disjoint-set-trace", "trace": tr})
     chk.assumptions += ["OT-SVG/SVG 1.1 semantics as implemented by harness/oracle_otsvg.py (g, path, use, defs, basic "
                         "shapes, fill inheritance, opacity, gradients)", "picosvg reuses isometric copies (assumption of the model; "
                         "structure drift is reported, the picture decides)"]
